@@ -348,6 +348,19 @@ pub fn c04_case(rng: &mut Rng, max_objects: usize) -> String {
         // difficulty attributes of a result from attributes are those attributes
         let from_attrs = spec.apply(Performance::new(attrs.clone()).difficulty(d.clone())).calculate();
         f.eq("embedded attrs of the attrs path", &diff_json(&embedded(&from_attrs)), &diff_json(&attrs));
+        // a complete, consistent state (as generate_state returns it) whose combo is impossible given
+        // its misses: every entry point normalises it the same way
+        for m in [1u32, 3] {
+            let mut gs = Performance::new(&c.conv).difficulty(d.clone()).misses(m).generate_state();
+            gs.max_combo = attrs.max_combo().saturating_add(5);
+            let via_map = Performance::new(&c.conv).difficulty(d.clone()).state(gs.clone()).calculate().json();
+            f.eq("complete state with an excessive combo: Performance::new(difficulty attrs) == from the map",
+                 &Performance::new(attrs.clone()).difficulty(d.clone()).state(gs.clone()).calculate().json(), &via_map);
+            f.eq("complete state with an excessive combo: Performance::new(performance attrs) == from the map",
+                 &Performance::new(from_ref.clone()).difficulty(d.clone()).state(gs.clone()).calculate().json(), &via_map);
+            f.eq("complete state with an excessive combo: Mode::Performance::new(attrs) == from the map",
+                 &mode_perf_from_attrs(&attrs).difficulty(d.clone()).state(gs.clone()).calculate().json(), &via_map);
+        }
         // the accessor methods of the attribute types say what the fields say
         use rosu_pp::any::{DifficultyAttributes as DA, PerformanceAttributes as PA};
         let (want_stars, want_combo, want_conv, want_objects): (f64, u32, bool, Option<u32>) = match &attrs {
@@ -1222,6 +1235,27 @@ pub fn c18_case(rng: &mut Rng, max_objects: usize) -> String {
                      &spec.apply(p).calculate().json(), &want);
                 f.eq(&format!("mode builder setters in the order {names} == the same calls on a Difficulty"),
                      &spec.apply(pm).calculate().json(), &want);
+            }
+        }
+        // 4c. a mode request that cannot be honoured (the calculator holds attributes, not a map)
+        // leaves every setting in place: mode_or_ignore is a no-op, try_mode hands the calculator back
+        {
+            let attrs0 = Difficulty::new().calculate(&c.conv);
+            let build = || {
+                let mut p = Performance::new(attrs0.clone());
+                for s in &setters {
+                    p = s.on_performance(p);
+                }
+                spec.apply(p)
+            };
+            let want0 = build().calculate().json();
+            for tm in [GameMode::Osu, GameMode::Taiko, GameMode::Catch, GameMode::Mania] {
+                f.eq(&format!("mode_or_ignore({tm:?}) on a calculator built from attributes changes nothing"),
+                     &build().mode_or_ignore(tm).calculate().json(), &want0);
+                let back = match build().try_mode(tm) {
+                    Ok(p) | Err(p) => p.calculate().json(),
+                };
+                f.eq(&format!("try_mode({tm:?}) on a calculator built from attributes hands it back unchanged"), &back, &want0);
             }
         }
         // 5. setters documented as irrelevant for the mode leave the result untouched
